@@ -38,6 +38,9 @@ use lightning_signer::lightning::types::payment::PaymentHash;
 use lightning_signer::lightning::sign::ChannelSigner;
 use lightning_signer::monitor::ChainMonitorBase;
 use lightning_signer::node::{Allowable, Node, NodeConfig, NodeServices};
+use lightning_signer::persist::Persist;
+use vls_persist::kvv::memory::MemoryKVVStore;
+use vls_persist::kvv::{JsonFormat, KVVPersister};
 use lightning_signer::policy::filter::{FilterResult, FilterRule, PolicyFilter};
 use lightning_signer::policy::simple_validator::{make_default_simple_policy, SimpleValidatorFactory};
 use lightning_signer::signer::derive::KeyDerivationStyle;
@@ -148,23 +151,41 @@ fn dest_ok(t: (char, char)) -> bool {
 struct Env {
     node_ctx: TestNodeContext,
     chan_ctx: TestChannelContext,
+    /// `cfg.allow` is the harness' own book of what is currently allowlisted (updated by `allow` ops)
     cfg: Cfg,
     ct: String,
+    persister: Arc<dyn Persist>,
+    seed: [u8; 32],
 }
 
-fn make_env(cfg: &Cfg, ct: &str) -> Result<Env, String> {
+fn services_for(cfg: &Cfg, persister: Arc<dyn Persist>) -> NodeServices {
     let mut policy = make_default_simple_policy(NET);
     policy.min_feerate_per_kw = cfg.minf;
     policy.max_feerate_per_kw = cfg.maxf;
     policy.filter = cfg.policy_filter();
-    let clock = Arc::new(ManualClock::new(Duration::from_secs(1_600_000_000)));
-    let services = NodeServices {
+    NodeServices {
         validator_factory: Arc::new(SimpleValidatorFactory::new_with_policy(policy)),
         starting_time_factory: make_genesis_starting_time_factory(NET),
-        persister: Arc::new(lightning_signer::persist::DummyPersister {}),
-        clock,
+        persister,
+        clock: Arc::new(ManualClock::new(Duration::from_secs(1_600_000_000))),
         trusted_oracle_pubkeys: vec![],
-    };
+    }
+}
+
+/// allowlist entries as the strings the node API takes (addresses; xpubs with the `xpub:` prefix)
+fn allow_strings(node: &Node, descs: &[String]) -> Vec<String> {
+    descs
+        .iter()
+        .filter_map(|d| allow_script(node, d))
+        .filter_map(|sc| lightning_signer::bitcoin::Address::from_script(&sc, NET).ok())
+        .map(|a| a.to_string())
+        .collect()
+}
+
+fn make_env(cfg: &Cfg, ct: &str) -> Result<Env, String> {
+    // a real persister: allowlist changes and restarts go through the store
+    let persister: Arc<dyn Persist> = Arc::new(KVVPersister(MemoryKVVStore::new([9u8; 16]), JsonFormat));
+    let services = services_for(cfg, persister.clone());
     let config = NodeConfig {
         network: NET,
         key_derivation_style: if cfg.style == 'l' { KeyDerivationStyle::Ldk } else { KeyDerivationStyle::Native },
@@ -179,6 +200,9 @@ fn make_env(cfg: &Cfg, ct: &str) -> Result<Env, String> {
         allow.push(Allowable::XPub(ext_xpub(*j)));
     }
     let node = Arc::new(Node::new(config, &seed, allow, services));
+    persister.new_node(&node.get_id(), &config, &*node.get_state()).map_err(|_| "new_node".to_string())?;
+    persister.new_tracker(&node.get_id(), &node.get_tracker()).map_err(|_| "new_tracker".to_string())?;
+    node.add_allowlist(&[]).map_err(|e| format!("persist allowlist: {}", e.message()))?;
     let node_ctx = TestNodeContext { node, secp_ctx: Secp256k1::signing_only() };
     let mut chan_ctx = test_chan_ctx_with_push_val(&node_ctx, 1, 3_000_000, 0);
     chan_ctx.setup.commitment_type = ct_of(ct);
@@ -191,7 +215,7 @@ fn make_env(cfg: &Cfg, ct: &str) -> Result<Env, String> {
     if let Some(st) = funding_tx_setup_channel(&node_ctx, &mut chan_ctx, &ftx, 0) {
         return Err(format!("setup_channel: {}", st.message()));
     }
-    Ok(Env { node_ctx, chan_ctx, cfg: cfg.clone(), ct: ct.to_string() })
+    Ok(Env { node_ctx, chan_ctx, cfg: cfg.clone(), ct: ct.to_string(), persister, seed })
 }
 
 fn status_class(st: &Status) -> String {
@@ -562,7 +586,7 @@ fn gen_cfg(rng: &mut Rng) -> Cfg {
     Cfg { minf, maxf, filter, style, allow, xpubs }
 }
 
-fn gen_dests(rng: &mut Rng, cfg: &Cfg) -> (Vec<u32>, Vec<Desc>) {
+fn gen_dests(rng: &mut Rng, cfg: &Cfg, removed: &[String]) -> (Vec<u32>, Vec<Desc>) {
     let p: Vec<u32> = if cfg.style == 'l' && rng.chance(1, 3) { vec![rng.below(3) as u32, rng.below(3) as u32] } else { vec![rng.below(5) as u32] };
     let wpath = match rng.below(14) { 0 => vec![], 1 => vec![p[0] | HARD], 2 => { let mut q = p.clone(); q.push(1); q } _ => p.clone() };
     let n = match rng.below(10) { 0 => 0, 1..=5 => 1, 6 | 7 => 2, 8 => 3, _ => 4 };
@@ -570,7 +594,10 @@ fn gen_dests(rng: &mut Rng, cfg: &Cfg) -> (Vec<u32>, Vec<Desc>) {
     for i in 0..n {
         // mostly good destinations; the bad one (if any) is more often NOT the first output
         let bad = rng.chance(1, if i == 0 { 12 } else { 5 });
-        let d = if bad {
+        let d = if !removed.is_empty() && rng.chance(1, 4) {
+            // a destination that WAS allowlisted and has been removed since
+            Desc::parse(rng.pick(removed).as_str()).unwrap()
+        } else if bad {
             match rng.below(4) {
                 0 => Desc::W(vec![(p[0] + 1) & !HARD], 'w'),
                 1 => Desc::W(p.clone(), 'k'),
@@ -637,7 +664,7 @@ impl Group for C09Sweep {
          justice sweeps with 0-4 outputs (the bad destination mostly not first), 0-3 inputs, signed input index in and out of range, \
          heights 0..u32::MAX incl. the 500_000_000 boundary, locktimes at height+MAX_CHAIN_LAG±1 and in the time domain, sequences in, next to and with BIP68 high bits (0x80000000, 0x00400000, 0x00010000, 0xffff0000) or-ed onto the permitted values, commitment numbers around next_holder_commit_num+1; second-level HTLC txs (holder and counterparty, \
          offered/received, both script forms) with mutated version/locktime/sequence/delay/revocation key/delayed key/value/extra inputs \
-         and outputs and fees at the min/max feerate edges; non-trivial = at least one signature and one refusal"
+         and outputs and fees at the min/max feerate edges; allowlist add/remove/set requests and restarts from a real KVVPersister<MemoryKVVStore> (Node::restore_node) between requests, with sweeps paying destinations that were allowlisted earlier and removed since; non-trivial = at least one signature and one refusal"
     }
     fn budget(&self, tier: Tier) -> usize { if tier == Tier::Quick { 2500 } else { 40000 } }
     fn corpus(&self) -> Vec<Vec<String>> {
@@ -649,6 +676,8 @@ impl Group for C09Sweep {
             c("env 253;333333;d;n;-;- s|delayed 253;333333;d;n;-;- s 100 2 0 7 0 0 1 1 W/1/w,F/3/w|justice 253;333333;d;n;-;- s 100 2 500000000 0 0 1 W/1/w|justice 253;333333;d;n;-;- s 100 2 102 0 0 1 W/1/w|justice 253;333333;d;n;-;- s 100 2 103 0 0 1 W/1/w"),
             // nSequence must equal the contest delay on all 32 bits: disable flag / time-units flag / high half set
             c("env 253;333333;d;n;-;- s|delayed 253;333333;d;n;-;- s 100 2 0 2147483655 0 0 1 1 W/1/w|delayed 253;333333;d;n;-;- s 100 2 0 4194311 0 0 1 1 W/1/w|delayed 253;333333;d;n;-;- s 100 2 0 4294901767 0 0 1 1 W/1/w|delayed 253;333333;d;n;-;- s 100 2 0 65543 0 0 1 1 W/1/w"),
+            // allowlist A, sweep to A signed; remove A: refused; restart from the store: still refused; add again + restart: signed
+            c("env 253;333333;d;n;F/3/w;- s|justice 253;333333;d;n;F/3/w;- s 100 2 0 0 0 - F/3/w|allow remove F/3/w|justice 253;333333;d;n;-;- s 100 2 0 0 0 - F/3/w|restart|justice 253;333333;d;n;-;- s 100 2 0 0 0 - F/3/w|delayed 253;333333;d;n;-;- s 100 2 0 7 0 0 1 - F/3/w|allow add F/3/w|restart|justice 253;333333;d;n;F/3/w;- s 100 2 0 0 0 - F/3/w"),
             // canonical HTLC-timeout (non-anchors, feerate 1000 → fee 663) and a wrong delay
             c("env 253;333333;d;n;-;- s|htlc 253;333333;d;n;-;- s h 2 131072 5:0:0 9337:r0/7/0 o 0 10000|htlc 253;333333;d;n;-;- s h 2 131072 5:0:0 9337:r0/6/0 o 0 10000"),
         ]
@@ -657,7 +686,7 @@ impl Group for C09Sweep {
         let t: Vec<&str> = op.split_whitespace().collect();
         let cfg = t.get(1).and_then(|c| Cfg::parse(c));
         match (t.as_slice(), cfg) {
-            (["env", ..], _) => None,
+            (["env", ..], _) | (["allow", ..], _) | (["restart"], _) => None,
             (["delayed", _, _ct, height, ver, lt, seqs, input, cnum, nhc, wpath, outs], Some(cfg)) => {
                 let r = parse_sweep(height, ver, lt, seqs, input, wpath, outs)?;
                 let (cnum, nhc): (u64, u64) = (cnum.parse().ok()?, nhc.parse().ok()?);
@@ -686,17 +715,55 @@ impl Group for C09Sweep {
         }
     }
     fn gen_case(&self, rng: &mut Rng, tier: Tier) -> Vec<String> {
-        let cfg = gen_cfg(rng);
+        let mut cfg = gen_cfg(rng);
         let ct = if cfg.filter == "p" && rng.chance(1, 2) { "a" } else if rng.chance(1, 2) { "z" } else { "s" };
-        let cs = cfg.to_string();
-        let mut ops = vec![format!("env {} {}", cs, ct)];
+        let mut ops = vec![format!("env {} {}", cfg.to_string(), ct)];
         let n = rng.range(2, if tier == Tier::Quick { 6 } else { 12 });
+        // destinations that were allowlisted earlier in this case and are not any more
+        let mut removed: Vec<String> = vec![];
         for _ in 0..n {
+            // allowlist changes (the generator keeps the same book as the executor) and restarts from the store
+            if rng.chance(1, 3) {
+                let fresh = |rng: &mut Rng| match rng.below(4) {
+                    0 => Desc::W(vec![rng.below(4) as u32], *rng.pick(&['w', 's', 't'])),
+                    _ => Desc::F(rng.below(6) as u32, *rng.pick(&['w', 's', 't', 'k', 'h'])),
+                }.to_string();
+                match rng.below(6) {
+                    0 | 1 => {
+                        let d = if !removed.is_empty() && rng.chance(1, 3) { rng.pick(&removed[..]).clone() } else { fresh(rng) };
+                        removed.retain(|x| *x != d);
+                        cfg.allow.push(d.clone());
+                        ops.push(format!("allow add {}", d));
+                    }
+                    2 | 3 | 4 if !cfg.allow.is_empty() => {
+                        let d = rng.pick(&cfg.allow[..]).clone();
+                        cfg.allow.retain(|x| *x != d);
+                        removed.push(d.clone());
+                        ops.push(format!("allow remove {}", d));
+                    }
+                    _ => {
+                        let mut keep: Vec<String> = cfg.allow.iter().filter(|_| rng.chance(1, 2)).cloned().collect();
+                        if rng.chance(1, 2) { keep.push(fresh(rng)); }
+                        keep.sort();
+                        keep.dedup();
+                        for d in &cfg.allow { if !keep.contains(d) { removed.push(d.clone()); } }
+                        removed.retain(|x| !keep.contains(x));
+                        cfg.allow = keep;
+                        ops.push(format!("allow set {}", join(&cfg.allow)));
+                    }
+                }
+                cfg.allow.sort();
+                cfg.allow.dedup();
+            }
+            if rng.chance(1, if removed.is_empty() { 8 } else { 2 }) {
+                ops.push("restart".into());
+            }
+            let cs = cfg.to_string();
             let kind = rng.below(10);
             if kind < 6 {
                 let height = gen_height(rng);
                 let lt = gen_locktime(rng, height);
-                let (wpath, outs) = gen_dests(rng, &cfg);
+                let (wpath, outs) = gen_dests(rng, &cfg, &removed);
                 let n_in = match rng.below(10) { 0 => 0, 1 | 2 => 2, 3 => 3, _ => 1 };
                 let input = if rng.chance(1, 12) { n_in } else if n_in > 0 { rng.below(n_in as u64) as usize } else { 0 };
                 let ver = match rng.below(12) { 0 => 1, 1 => 3, _ => 2 };
@@ -794,6 +861,45 @@ impl Group for C09Sweep {
                     Some(Err(m)) => format!("harness-setup-failed {}", m),
                     None => "bad-op".into(),
                 },
+                ["allow", what, descs] => {
+                    let e = env.as_mut().expect("allow before env (malformed shrunk case)");
+                    let ds: Vec<String> = list(descs).iter().map(|s| s.to_string()).collect();
+                    let node = e.node_ctx.node.clone();
+                    let strs = allow_strings(&node, &ds);
+                    let r = match *what {
+                        "add" => {
+                            for d in &ds { if !e.cfg.allow.contains(d) { e.cfg.allow.push(d.clone()); } }
+                            node.add_allowlist(&strs)
+                        }
+                        "remove" => {
+                            e.cfg.allow.retain(|d| !ds.contains(d));
+                            node.remove_allowlist(&strs)
+                        }
+                        _ => {
+                            e.cfg.allow = ds.clone();
+                            // set_allowlist replaces everything: keep the (static) xpubs
+                            let mut all = strs.clone();
+                            for j in &e.cfg.xpubs { all.push(format!("xpub:{}", ext_xpub(*j))); }
+                            node.set_allowlist(&all)
+                        }
+                    };
+                    e.cfg.allow.sort();
+                    e.cfg.allow.dedup();
+                    co.tags.insert(format!("allow:{}", what));
+                    match r { Ok(()) => "ok".to_string(), Err(st) => format!("allow-failed {}", st.message()) }
+                }
+                ["restart"] => {
+                    let e = env.as_mut().expect("restart before env (malformed shrunk case)");
+                    let (node_id, entry) = e.persister.get_nodes().unwrap().into_iter().next().unwrap();
+                    match Node::restore_node(&node_id, entry, &e.seed, services_for(&e.cfg, e.persister.clone())) {
+                        Ok(n) => {
+                            e.node_ctx = TestNodeContext { node: n, secp_ctx: Secp256k1::signing_only() };
+                            co.tags.insert("restart".into());
+                            "ok".to_string()
+                        }
+                        Err(st) => format!("restore-failed {}", st.message()),
+                    }
+                }
                 [kind, cfg, ct, ..] => match env.as_ref() {
                     None => panic!("request before env (malformed shrunk case)"),
                     Some(e) if e.cfg.to_string() == *cfg && e.ct == *ct => {
@@ -801,12 +907,15 @@ impl Group for C09Sweep {
                         co.tags.insert(format!("{}:{}", kind, l.split(' ').next().unwrap_or("")));
                         if l == "ok" { acc = true } else { rej = true }
                         if l == "panic" {
-                            // a panic inside with_channel poisons the slot mutex: rebuild the environment
+                            // a panic inside with_channel poisons the slot mutex: rebuild the environment (with the
+                            // allowlist as the book has it now)
                             env = make_env(&e.cfg.clone(), &e.ct.clone()).ok();
                         }
                         l
                     }
-                    _ => "bad-op".into(),
+                    // the request's cfg (incl. the allowlist book) does not match the environment: a shrunk case that
+                    // lost an `allow` op
+                    _ => panic!("request cfg does not match the environment (malformed shrunk case)"),
                 },
                 _ => "bad-op".into(),
             };
